@@ -156,11 +156,13 @@ Inductive mcase :=
   (* SetHasher history: MerklizeJSONLD WITHOUT WithHasher while the package default is hd,
      then merklize.SetHasher(hd2), then the caller steps (Script.run with D 0 = hd, D i = hd2) *)
 | mkh (id : int) (hd hd2 : raw_hasher) (thl thm : raw_ttab)
-      (es : list rentry) (mo : rmerk) (steps : list rstep).
+      (es : list rentry) (mo : rmerk) (steps : list rstep)
+  (* standalone merklize.HashValueWithHasher(h, dt, v): Value.Model.value_to_hash under h *)
+| mkv (id : int) (h : raw_hasher) (rf : raw_floats) (dt : string) (v : raw_goval) (o : vobs).
 Definition mc_id (c : mcase) : int :=
   match c with
   | mkm id _ _ _ _ _ _ _ _ => id | mkd id _ _ _ _ _ _ _ _ _ => id | mks id _ _ _ _ _ => id
-  | mkh id _ _ _ _ _ _ _ => id
+  | mkh id _ _ _ _ _ _ _ => id | mkv id _ _ _ _ _ => id
   end.
 
 Fixpoint gagree (T : tparams) (Hd Hc : hasher) (st : shared) (gs : list rgstep) : bool :=
@@ -239,6 +241,8 @@ Definition case_agree (q : Z) (c : mcase) : bool :=
       | Err _, RMErr => true
       | _, _ => false
       end
+  | mkv _ h rf dt v o =>
+      Value.Run.agree (value_to_hash (mk_hasher h) (mk_floats rf) dt (goval_of v)) o
   end.
 
 Definition mmismatches (q : limbs) (cs : list mcase) : list int :=
